@@ -479,6 +479,7 @@ type connectStreamingClientConn struct {
 	unmarshaler      connectStreamingUnmarshaler
 	responseHeader   http.Header
 	responseTrailer  http.Header
+	receiveErr       error // the first error Receive returned, the end of the response included
 }
 
 func (cc *connectStreamingClientConn) Spec() Spec {
@@ -502,6 +503,12 @@ func (cc *connectStreamingClientConn) CloseRequest() error {
 
 func (cc *connectStreamingClientConn) Receive(msg any) error {
 	cc.duplexCall.BlockUntilResponseReady()
+	if cc.receiveErr != nil {
+		// The stream has ended, one way or the other: there's nothing more to
+		// read, and the end-of-stream metadata has been merged into the trailers
+		// once already.
+		return cc.receiveErr
+	}
 	err := cc.unmarshaler.Unmarshal(msg)
 	if err == nil {
 		return nil
@@ -516,6 +523,7 @@ func (cc *connectStreamingClientConn) Receive(msg any) error {
 		serverErr.meta = cc.responseHeader.Clone()
 		mergeHeaders(serverErr.meta, cc.responseTrailer)
 		cc.duplexCall.SetError(serverErr)
+		cc.receiveErr = serverErr
 		return serverErr
 	}
 	// If the stream ended without an end-of-stream message, the response is
@@ -528,6 +536,7 @@ func (cc *connectStreamingClientConn) Receive(msg any) error {
 	// just an EOF. We're going to return it to the user, but we also want to
 	// setResponseError so Send errors out.
 	cc.duplexCall.SetError(err)
+	cc.receiveErr = err
 	return err
 }
 
